@@ -139,7 +139,8 @@ static const char* cplx_known(const Options& o, const COp& op, cld a, cld b, dou
     if (n == "pow_real" && o.known.count("cpow_large_exponent"))
     {
         // D23: pow(z, y) = exp(y log z) loses about one eps per unit of |y log z| (complex logarithm: modulus and angle)
-        ld t = fabsl(b.real()) * std::abs(std::log(a));
+        // (the logarithm itself carries an absolute error of about one eps even when |log z| < 1)
+        ld t = fabsl(b.real()) * std::max((ld)1, std::abs(std::log(a)));
         if (t > 6 && err <= 4.0 * (1.0 + (double)t))
             return "cpow_large_exponent";
     }
